@@ -112,6 +112,37 @@ def main():
             parse_fail.append((s, repr(e)))
             continue
         add('parse_type/%s' % s, '__builtin_types_compatible_p(%s, %s)' % (s, back))
+    # beyond the strings that occur in the metadata: every string of a small declarator grammar (finite, enumerated)
+    gram = []
+    for base in ('int', 'char', 'double', 'mjtNum', 'unsigned int', 'mjModel', 'void'):
+        for vq in ('', 'const ', 'volatile ', 'const volatile '):
+            for p1 in (None, '', ' const', ' volatile', ' restrict', ' const volatile'):
+                for p2 in (None, '', ' const', ' volatile'):
+                    if p1 is None and p2 is not None:
+                        continue
+                    for arr in ('', '[3]', '[3][4]'):
+                        t = vq + base
+                        if p1 is not None:
+                            t += ' *' + p1
+                        if p2 is not None:
+                            t += ' *' + p2
+                        if base == 'void' and p1 is None:
+                            continue
+                        gram.append(t + arr)
+    n_gram = 0
+    for s in gram:
+        if s in seen:
+            continue
+        seen.add(s)
+        try:
+            back = tp.parse_type(s).decl()
+        except Exception as e:   # noqa
+            parse_fail.append((s, repr(e)))
+            continue
+        n_gram += 1
+        # pointer-to-T keeps top-level qualifiers and array-ness significant in the comparison
+        add('parse_type_grammar/%s' % s, '__builtin_types_compatible_p(__typeof__(%s) *, __typeof__(%s) *)' % (s, back))
+    chk.extra_cov['parse_type_grammar_strings'] = n_gram
     for s, e in parse_fail:
         chk.external('parse_type/%s' % s, False, 'python', 0.0, detail='parse_type raised ' + e)
     cpath = os.path.join(work, 'c49_asserts.c')
